@@ -687,16 +687,24 @@ def normlaws_vectors(m):
     return [u, v, [a + b for a, b in zip(u, v)], [a * c for a in u]]
 
 def check_norm_values(vec, got, p, w):
-    """got = [norm_1, norm_2, norm_p, norm_inf] as returned for `vec`.  None, or a description that starts with the tag
-    [<operation>#<w>] of the first operation whose value is not the definition's (norm_1 and norm_inf first)."""
+    """got = [norm_1, norm_2, norm_p, norm_inf] as returned for `vec`.  EVERY operation whose value is not the definition's,
+    as a list of (column, description); the description starts with the tag [<operation>#<w>] (norm_inf and norm_1 first).
+    All of them are collected: a failure that finding_key downgrades to a recorded finding must not hide another one."""
     n1, n2, npp, ninf = ref_norms(vec, p)
     scale = float(n1) if n1 < 1e308 else None
     g1, g2, gp, ginf = got
-    if ginf != float(ninf): return "[norm_inf#%d] norm_inf of %r is %r, definition gives %r" % (w, vec, ginf, float(ninf))
-    if not close(g1, n1, scale): return "[norm_1#%d] norm_1 of %r is %r, definition gives %r" % (w, vec, g1, float(n1))
-    if not close(g2, n2, scale): return "[norm_2#%d] norm_2 of %r is %r, definition gives %r" % (w, vec, g2, float(n2))
-    if not close(gp, npp, scale): return "[norm_p#%d] norm_p(%r) of %r is %r, definition gives %r" % (w, p, vec, gp, float(npp))
-    return None
+    out = []
+    if ginf != float(ninf): out.append((3, "[norm_inf#%d] norm_inf of %r is %r, definition gives %r" % (w, vec, ginf, float(ninf))))
+    if not close(g1, n1, scale): out.append((0, "[norm_1#%d] norm_1 of %r is %r, definition gives %r" % (w, vec, g1, float(n1))))
+    if not close(g2, n2, scale): out.append((1, "[norm_2#%d] norm_2 of %r is %r, definition gives %r" % (w, vec, g2, float(n2))))
+    if not close(gp, npp, scale): out.append((2, "[norm_p#%d] norm_p(%r) of %r is %r, definition gives %r" % (w, p, vec, gp, float(npp))))
+    return out
+
+def pick_failure(case, descs):
+    """of all the failures of one case: the first that is NOT a recorded finding (it is reported), else the first"""
+    for d in descs:
+        if finding_key(case, d, None) is None: return d
+    return descs[0] if descs else None
 
 # ------------------------------------------------------------------ norm laws on complex / rational vectors (package cnorm)
 def cmul_ieee(x, c):
@@ -791,37 +799,49 @@ F64_MIN_NORMAL = 2.2250738585072014e-308
 def square_leaves_normal_range(x):
     """x finite and non-zero whose square is not a normal f64 (overflows, or underflows to a subnormal / zero)"""
     if x == 0 or not math.isfinite(x): return False
-    try:
-        y = x * x
-    except OverflowError:
-        return True
+    y = x * x
     return (not math.isfinite(y)) or abs(y) < F64_MIN_NORMAL
 
+def accumulated_leaves_normal_range(terms):
+    """terms: the non-negative f64 values the pinned code adds up (|x|^2 for norm_2, |x|^p for norm_p, re^2 and im^2 for
+    Complex::abs), in its order and in IEEE arithmetic.  True when a term comes from a non-zero entry (the caller passes
+    only those vectors) and the ACCUMULATED value is not a normal f64: it overflowed, or it is below 2^-1022 (subnormal or
+    zero).  While the accumulated value stays normal an underflowed term costs at most 2^-1075 each against a total of at
+    least 2^-1022, i.e. the pinned code is accurate and a failure there is not the recorded finding."""
+    acc = 0.0
+    for t in terms: acc = acc + t
+    return (not math.isfinite(acc)) or acc < F64_MIN_NORMAL
+
 def finding_key(case, desc, items):
-    """`f64-square-range` exactly when the failing operation is norm_2 / norm_p / linspace / powspace on f64 AND the
-    INPUT of that operation has a component whose square (for the spacings: the difference b - a) is outside the
-    normal f64 range.  Decided from the input, never from the failure; everything else stays a VIOLATION."""
+    """`f64-square-range` exactly when the failing operation is norm_2 / norm_p / linspace / powspace on f64 AND the sum
+    that operation accumulates on ITS operand (norm_2: the squares, norm_p: the powers |x|^p; evaluated here in IEEE
+    arithmetic, in the order of the code) is outside the normal f64 range (for the spacings: the difference b - a is).
+    A single entry whose own square underflows next to entries that dominate the sum ([1.0, 1e-160]) does not grant the
+    key: the pinned code is accurate there.  Decided from the input, never from the failure; everything else stays a VIOLATION."""
     m = case.meta; kind = m.get("kind")
     import re as _re
     if kind == "cnormlaws" and isinstance(desc, str):
         # package cnorm: the complex twin of the same cause (Complex::abs = sqrt(re^2 + im^2), unscaled; recorded for C01 as
         # cplx-sqmod-range; KNOWN_FINDINGS.txt has the C15 line with this key, witnesses corpus/C15/kf_cplx_scale_*.json).  The default generators do NOT draw such entries:
-        # the key is decided from the INPUT (an entry whose squared modulus leaves the normal range), never from the failure.
+        # the key is decided from the INPUT (an entry of the operand of the failing call whose squared modulus re^2 + im^2,
+        # evaluated in IEEE arithmetic, leaves the normal range; a component whose own square underflows next to a
+        # dominating one -- 1 + 1e-160 i -- does not count), never from the failure.
         t = _re.match(r"\[(cnorm_1|cnorm_inf)#(\d)\]", desc)
         if t:
             vec = cnormlaws_vectors(m)[int(t.group(2))]
             def sq_out(z):
                 if z == 0 or not (math.isfinite(z.real) and math.isfinite(z.imag)): return False
-                try: y = z.real * z.real + z.imag * z.imag
-                except OverflowError: return True
-                return (not math.isfinite(y)) or y < F64_MIN_NORMAL or square_leaves_normal_range(z.real) or square_leaves_normal_range(z.imag)
+                return accumulated_leaves_normal_range([z.real * z.real, z.imag * z.imag])
             return "cplx-sqmod-range" if any(sq_out(z) for z in vec) else None
         return None
     if case.elt != 'f64' or not isinstance(desc, str): return None
     t = _re.match(r"\[(norm_2|norm_p)#(\d)\]", desc)
     if t and kind in ("norms", "normlaws"):
         vec = m["v"] if kind == "norms" else normlaws_vectors(m)[int(t.group(2))]
-        return "f64-square-range" if any(square_leaves_normal_range(x) for x in vec) else None
+        if not all(math.isfinite(x) for x in vec) or all(x == 0 for x in vec): return None
+        if t.group(1) == "norm_2": terms = [abs(x) * abs(x) for x in vec]
+        else: terms = [cpow(abs(x), m["p"]) for x in vec]
+        return "f64-square-range" if accumulated_leaves_normal_range(terms) else None
     if kind in ("linspace", "powspace") and desc.startswith("[%s]" % kind):
         return "f64-square-range" if not math.isfinite(m["b"] - m["a"]) else None
     return None
@@ -844,7 +864,7 @@ def oracle(case, items):
             if not all(fl(items, k) == 0.0 for k in range(3)): return "[norm_1] norms of the empty vector are not 0: %r" % (items[:3],)
             return None if items[3][0] == 'P' else "[norm_inf] norm_inf of the empty vector returned a value"
         if items[3][0] != 'f': return "[norm_inf] norm_inf of %r panicked" % (v,)
-        return check_norm_values(v, [fl(items, k) for k in range(4)], p, 0)
+        return pick_failure(case, [d for _, d in check_norm_values(v, [fl(items, k) for k in range(4)], p, 0)])
     if kind == "normlaws":
         u, v, c, p = m["u"], m["v"], m["c"], m["p"]
         if len(u) != len(v):
@@ -854,25 +874,32 @@ def oracle(case, items):
         if len(items) != 16 or any(it[0] != 'f' for it in items): return "malformed norm-laws answer %r" % (items[:6],)
         N = [[fl(items, 4 * w + k) for k in range(4)] for w in range(4)]     # rows u, v, u+v, c*u ; columns 1, 2, p, inf
         vecs = normlaws_vectors(m)
+        # every failure of the case is collected; pick_failure reports the first that is not the recorded finding (a
+        # downgraded [norm_2#w] on a range-extreme operand must not hide a norm_1 / norm_p / law failure of the same case)
+        fails = []; bad = set()          # bad: (row, column) of the values that are not the definition's
         # (1) every value is the definition's value of the vector it was computed from (names the failing operation) ...
         for w, vec in enumerate(vecs):
             if not all(math.isfinite(x) for x in vec): continue      # u+v or c*u overflowed entry-wise: nothing is claimed
-            d = check_norm_values(vec, N[w], p, w)
-            if d: return d
-        if not all(math.isfinite(x) for vec in vecs for x in vec): return None
-        # (2) ... and the laws themselves hold between the returned values
+            for k, d in check_norm_values(vec, N[w], p, w):
+                bad.add((w, k)); fails.append(d)
+        if not all(math.isfinite(x) for vec in vecs for x in vec): return pick_failure(case, fails)
+        # (2) ... and the laws themselves hold between the returned values.  A law instance is judged when every value it
+        # involves passed (1) (a value that failed (1) is reported -- or is the recorded finding -- under its own tag).
+        # Clause (1) pins each value to 1e-12 only, a law combines up to three of them: slack 4e-12.
         names = ["norm_1", "norm_2", "norm_p(%r)" % p, "norm_inf"]
-        sl = 1e-12
+        sl = 4e-12
         for k in range(4):
             nu, nv, ns, nc = N[0][k], N[1][k], N[2][k], N[3][k]
-            if min(nu, nv, ns, nc) < 0 or any(x != x for x in (nu, nv, ns, nc)): return "[law] %s is negative or NaN on %r / %r" % (names[k], u, v)
-            if ns > (nu + nv) * (1 + sl) + 1e-300: return "[law] triangle inequality fails for %s: |u+v| = %r > |u| + |v| = %r (u = %r, v = %r)" % (names[k], ns, nu + nv, u, v)
-            if abs(nc - abs(c) * nu) > sl * max(nc, abs(c) * nu) + 1e-300: return "[law] homogeneity fails for %s: |c u| = %r, |c| |u| = %r (c = %r, u = %r)" % (names[k], nc, abs(c) * nu, c, u)
+            ok = lambda *ws: not any((w, k) in bad for w in ws)
+            for w in range(4):
+                if ok(w) and not (N[w][k] >= 0): fails.append("[law] %s is negative or NaN on %r / %r" % (names[k], u, v))
+            if ok(0, 1, 2) and not (ns <= (nu + nv) * (1 + sl) + 1e-300): fails.append("[law] triangle inequality fails for %s: |u+v| = %r > |u| + |v| = %r (u = %r, v = %r)" % (names[k], ns, nu + nv, u, v))
+            if ok(0, 3) and not (abs(nc - abs(c) * nu) <= sl * max(nc, abs(c) * nu) + 1e-300): fails.append("[law] homogeneity fails for %s: |c u| = %r, |c| |u| = %r (c = %r, u = %r)" % (names[k], nc, abs(c) * nu, c, u))
         for w, vec in enumerate((u, v)):
             n1, n2, npp, ninf = N[w][0], N[w][1], N[w][2], N[w][3]
-            if not (ninf <= n2 * (1 + sl) and n2 <= n1 * (1 + sl)): return "[law] norm_inf <= norm_2 <= norm_1 fails on %r: %r, %r, %r" % (vec, ninf, n2, n1)
-            if p >= 1 and not (ninf <= npp * (1 + sl) and npp <= n1 * (1 + sl)): return "[law] norm_inf <= norm_p <= norm_1 fails on %r (p = %r): %r, %r, %r" % (vec, p, ninf, npp, n1)
-        return None
+            if not ({(w, 0), (w, 1), (w, 3)} & bad) and not (ninf <= n2 * (1 + sl) and n2 <= n1 * (1 + sl)): fails.append("[law] norm_inf <= norm_2 <= norm_1 fails on %r: %r, %r, %r" % (vec, ninf, n2, n1))
+            if not ({(w, 0), (w, 2), (w, 3)} & bad) and p >= 1 and not (ninf <= npp * (1 + sl) and npp <= n1 * (1 + sl)): fails.append("[law] norm_inf <= norm_p <= norm_1 fails on %r (p = %r): %r, %r, %r" % (vec, p, ninf, npp, n1))
+        return pick_failure(case, fails)
     if kind in ("linspace", "powspace"):
         a, b, n = m["a"], m["b"], m["n"]
         if not items or items[0] != ('i', n): return "[%s] %s(%r, %r, %d) has length %r" % (kind, kind, a, b, n, items[:1])
